@@ -19,7 +19,7 @@ def degrade(outcome, flavour):
     return outcome
 
 
-def run_program(prog, flavour, case=None, live=None, runner=None):
+def run_program(prog, flavour, case=None, live=None, runner=None, falsy=False):
     """-> dict(events=[(name, ...)], outcomes=[names], raised=exc|None, live, case, result, wellformed=bool)"""
     import testtools
     live = live or P.Live()
@@ -53,6 +53,9 @@ def run_program(prog, flavour, case=None, live=None, runner=None):
         res = testtools.ExtendedToStreamDecorator(rec)
     else:
         raise AssertionError(flavour)
+    if falsy:
+        # (C01) a result object whose truth value is False: it has a length, and that is 0
+        res.__class__ = type("Falsy" + type(res).__name__, (type(res),), {"__len__": lambda self: 0})
     if case is None:
         case = P.build_case(prog, live, result_log=shared, runner=runner)
     raised = None
